@@ -32,7 +32,9 @@ def demo(wt, d, k):
         ok = rc == 0 and re.search(r"test result: ok\. [1-9]\d* passed", out) is not None
         return ok, out[-1500:]
     if os.path.exists(sh_f):
-        rc, out = sh(f"cargo build --offline -q 2>/dev/null; bash {sh_f} {wt}", wt, 600)
+        shutil.copy(sh_f, os.path.join(wt, "examples", f"demo_{k}.sh"))
+        rc, out = sh(f"cargo build --offline -q 2>/dev/null; bash examples/demo_{k}.sh", wt, 600)
+        os.remove(os.path.join(wt, "examples", f"demo_{k}.sh"))
         return rc == 0, out[-1500:]
     return None, "no demo found"
 
